@@ -168,7 +168,20 @@ def run(chk):
         sb, st = sg[0]
         msg = flow.simplify_term(Ta.operand(st["args"][1], sb, "t"))
         sc = segs_of(msg)
-        ok = len(sc) == 4 and sc[0] == ("field", ("upvar", 1), "application") and sc[1] == ("array", (("upvar", 3),)) and is_call(sc[2], "u32::to_be_bytes") and sc[2][2][0] == ("upvar", 2) and sc[3] == ("field", ("upvar", 1), "challenge")
+        if len(sc) == 1:
+            # a fixed buffer filled at positions instead of a chain: the same segments, read from its positional writes
+            from . import layout
+            W = layout.positional_writes(p, ua, N)
+            root = layout.root_of(N.norm(msg))
+            sg2 = layout.segments_of(W, root)
+            if sg2 is not None and layout.written_before(ua, W, root, sb):
+                sc = sg2
+
+        def flag_byte(t):
+            while is_call(t, "Flags::bits") or is_call(t, "Into::into") or is_call(t, "From::from"):
+                t = t[2][0]
+            return t
+        ok = len(sc) == 4 and sc[0] == ("field", ("upvar", 1), "application") and sc[1][0] == "array" and len(sc[1][1]) == 1 and flag_byte(sc[1][1][0]) == ("upvar", 3) and is_call(sc[2], "u32::to_be_bytes") and sc[2][2][0] == ("upvar", 2) and sc[3] == ("field", ("upvar", 1), "challenge")
         chk.ob("R3 authentication signature base", "R3|authenticate|layout", ok, where(ua, sb), "signed message segments: %s" % [flow.term_str(x)[:50] for x in sc])
         key = flow.simplify_term(Ta.operand(st["args"][0], sb, "t"))
         okk = has(key, lambda x: is_call(x, "private_key_from_cose_key")) and has(key, lambda x: isinstance(x, tuple) and len(x) == 3 and x[0] == "field" and x[2] == "key" and has(x[1], lambda y: is_call(y, "CredentialStore::find_credentials")))
@@ -180,14 +193,16 @@ def run(chk):
             chk.ob("R3 authentication signature base", "R3|authenticate|response-fields", f["user_presence"] == ("upvar", 3) and f["counter"] == ("upvar", 2) and has(f["signature"], lambda x: is_call(x, "Signer::sign") or is_call(x, "SignerMut::sign")), where(ua, bb),
                    "response presence = %s, counter = %s" % (flow.term_str(f["user_presence"]), flow.term_str(f["counter"])))
         # lookup failure -> Err: the sign call is cut by the success edges of the `?`s on the lookup result
-        aw = [x for x in flow.awaits(ua) if x.call is not None and names.call_is(x.call, "CredentialStore::find_credentials")]
-        from .common import forward_taint
-        ok = False
-        if aw and aw[0].payload is not None:
-            tainted = forward_taint(ua, {aw[0].payload}) | {aw[0].payload}
-            tries = [t for t in flow.try_sites(ua) if t["operand"] and t["operand"][0] in tainted]
-            ok = len(tries) >= 2 and all(flow.cut_by_edges(ua, 0, [sb], [(t["switch_bb"], t["continue_bb"])]) for t in tries)
-        chk.ob("R3 authentication signature base", "R3|authenticate|unknown-handle-is-error", ok, where(ua, sb), "signing is cut by the success edges of every `?` on the lookup result: %s" % ok)
+        # (`?`, `let .. else`, `match`: any test of presence; the edges on which the value was found present cut the signing)
+        is_lookup = lambda x: isinstance(x, tuple) and len(x) == 4 and x[0] in ("await", "call") and names.is_(x[1], "CredentialStore::find_credentials")
+        is_first = lambda x: is_call(x, "Iterator::next") and has(x, is_lookup)
+        ok = True
+        n_tests = 0
+        for pred in (is_lookup, is_first):
+            found, missing = flow.success_edges(p, ua, pred, Ta, N=N)
+            n_tests += 1 if found else 0
+            ok = ok and bool(found) and flow.cut_by_edges(ua, 0, [sb], found)
+        chk.ob("R3 authentication signature base", "R3|authenticate|unknown-handle-is-error", ok, where(ua, sb), "signing happens only past `lookup succeeded` and `a credential was found` (%d presence tests cut it): %s" % (n_tests, ok))
 
     # ---------------- R4
     enc = p.method(U + "register::RegisterResponse", "encode")
